@@ -105,12 +105,17 @@ def run_case(case, ctx):
 		else:
 			null_j = case['seed'] % n
 
-	d = ctx.fresh_dir('c04db')
+	d_top = d = ctx.fresh_dir('c04db')
 	try:
+		if case.get('dir_style'):
+			# the database directory carries an awkward but legal name and has neighbours (complete decoy databases) with similar names
+			from vlib import clihelp as _H
+			d = _H.styled_db_dir(d_top, case['dir_style'])
 		gdb_name = 'genomes' + case['gdb_ext']
 		gs_name = 'sigs' + case['gs_ext']
 		gdb_path = os.path.join(d, gdb_name)
-		engine = create_engine(f'sqlite:///{gdb_path}')
+		from sqlalchemy.engine import URL
+		engine = create_engine(URL.create('sqlite', database=gdb_path))     # not an f-string URL: the path may contain ? # %
 		Base.metadata.create_all(engine)
 		with Session(engine) as s:
 			gset = ReferenceGenomeSet(key='c04', version='1', name='c04')
@@ -176,7 +181,7 @@ def run_case(case, ctx):
 			err = None
 		except Exception as e:
 			db, err = None, e
-		classes = ['attr=' + attr, 'neg=' + str(neg), 'gdb_state=' + state]
+		classes = ['attr=' + attr, 'neg=' + str(neg), 'gdb_state=' + state] + (['dir_name=' + case['dir_style']] if case.get('dir_style') else [])
 		if negative:
 			if err is None:
 				try:
@@ -237,7 +242,7 @@ def run_case(case, ctx):
 		classes.append('names=' + case['gdb_ext'] + '+' + case['gs_ext'])
 		return {'nontrivial': idx != list(range(n)), 'classes': classes}
 	finally:
-		shutil.rmtree(d, ignore_errors=True)
+		shutil.rmtree(d_top, ignore_errors=True)
 
 
 ID_TEXT = st.one_of(
@@ -262,6 +267,7 @@ def gen_case(draw, tier):
 		'small_ints': draw(st.booleans()),
 		'gdb_ext': draw(st.sampled_from(['.gdb', '.db'])),
 		'gdb_state': draw(st.sampled_from(['plain', 'wal_hot', 'plain', 'wal'])),
+		'dir_style': draw(st.sampled_from([None, None, 'brackets', 'star', 'question', 'range', 'space_hash', 'percent', 'dots'])),
 		'gs_ext': draw(st.sampled_from(['.gs', '.h5'])),
 		'shuffle_rows': draw(st.sampled_from([True, True, False])),
 		'extra_files': draw(st.lists(st.sampled_from(['README.txt', 'notes', 'x.gs.bak', 'y.gdb~', 'z.fasta', 'w.hdf5', 'v.sqlite']), max_size=3, unique=True)),
